@@ -181,6 +181,12 @@ func NodePath(n Node) string {
 // similar to an XPath but currently has no wildcarding.  For example:
 // "/if:interfaces/if:interface" and "../config".
 func FindNode(n Node, path string) (Node, error) {
+	return findNode(n, path, map[Node]bool{})
+}
+
+// findNode implements FindNode.  usesSeen is the set of uses statements whose
+// grouping is being looked up, see childNode.
+func findNode(n Node, path string, usesSeen map[Node]bool) (Node, error) {
 	if path == "" {
 		return n, nil
 	}
@@ -204,12 +210,15 @@ func FindNode(n Node, path string) (Node, error) {
 		// TODO(borman): merge this with FindModuleByPrefix?
 		// The base is always a module
 		mod := RootNode(n)
+		if mod == nil {
+			return nil, fmt.Errorf("%s: node is not part of a module", path)
+		}
 		n = mod
 		prefix, _ := getPrefix(parts[0])
 		if mod.Kind() == "submodule" {
 			m := mod.Modules.Modules[mod.BelongsTo.Name]
 			if m == nil {
-				return nil, fmt.Errorf("%s: unknown module %s", m.Name, mod.BelongsTo.Name)
+				return nil, fmt.Errorf("%s: unknown module %s", mod.Name, mod.BelongsTo.Name)
 			}
 			if prefix == "" || prefix == mod.BelongsTo.Prefix.Name {
 				goto processing
@@ -223,6 +232,9 @@ func FindNode(n Node, path string) (Node, error) {
 
 		for _, i := range mod.Import {
 			if prefix == i.Prefix.Name {
+				if i.Module == nil {
+					return nil, fmt.Errorf("%s: module %s is not loaded", path, i.Name)
+				}
 				n = i.Module
 				goto processing
 			}
@@ -263,7 +275,7 @@ func FindNode(n Node, path string) (Node, error) {
 		// For now just strip off any prefix
 		// TODO(borman): fix this
 		_, spart := getPrefix(part)
-		n = ChildNode(n, spart)
+		n = childNode(n, spart, usesSeen)
 		if n == nil {
 			return nil, fmt.Errorf("%s: no such element", part)
 		}
@@ -276,6 +288,15 @@ func FindNode(n Node, path string) (Node, error) {
 // n as well as every node in all slices of Node pointers.  Names must
 // be non-ambiguous, otherwise ChildNode has a non-deterministic result.
 func ChildNode(n Node, name string) Node {
+	return childNode(n, name, map[Node]bool{})
+}
+
+// childNode implements ChildNode.  A uses statement is followed by looking
+// for its grouping from the root, which leads back to the same uses statement
+// when the grouping is not a child of the root (it is defined in a submodule,
+// in another module or in an inner scope); usesSeen holds the uses statements
+// that are being followed, so that each is followed once.
+func childNode(n Node, name string, usesSeen map[Node]bool) Node {
 	v := reflect.ValueOf(n).Elem()
 	t := v.Type()
 	nf := t.NumField()
@@ -307,13 +328,18 @@ Loop:
 		}
 		if parts[0] == "uses" {
 			check = func(n Node) Node {
+				if usesSeen[n] {
+					return nil
+				}
+				usesSeen[n] = true
+				defer delete(usesSeen, n)
 				uname := n.NName()
 				// unrooted uses are rooted at root
 				if !strings.HasPrefix(uname, "/") {
 					uname = "/" + uname
 				}
-				if n, _ = FindNode(n, uname); n != nil {
-					return ChildNode(n, name)
+				if n, _ = findNode(n, uname, usesSeen); n != nil {
+					return childNode(n, name, usesSeen)
 				}
 				return nil
 			}
